@@ -18,11 +18,11 @@ rm -f /tmp/confirm_$ID.log
 echo "== demo with change (must fail)"
 cargo test --offline --test $DEMONAME 2>&1 | grep -E "^test result|error" | head -3
 cargo test --offline --test $DEMONAME >/dev/null 2>&1; DEMO_WITH=$?
-git stash -q -- src
+git apply -R /tmp/confirm_$ID.diff
 echo "== demo without change (must pass)"
 cargo test --offline --test $DEMONAME 2>&1 | grep -E "^test result|error" | head -3
 cargo test --offline --test $DEMONAME >/dev/null 2>&1; DEMO_WITHOUT=$?
-git stash pop -q
+git apply /tmp/confirm_$ID.diff
 echo "suite_ok_groups=$SUITE_WITH demo_with_rc=$DEMO_WITH demo_without_rc=$DEMO_WITHOUT"
 if [ "$SUITE_WITH" -ge 2 ] && [ "$DEMO_WITH" -ne 0 ] && [ "$DEMO_WITHOUT" -eq 0 ]; then
   mkdir -p /verif/seeded/$ID
@@ -32,7 +32,7 @@ if [ "$SUITE_WITH" -ge 2 ] && [ "$DEMO_WITH" -ne 0 ] && [ "$DEMO_WITHOUT" -eq 0 
   python3 - <<PY
 import json
 json.dump({"id":"$ID","breaks_property":"$PROP","confirmed":{"existing_suite_passes_with_change":True,"demo_fails_with_change":True,"demo_passes_without_change":True},
- "what_i_ran":["cargo test --offline --lib; cargo test --offline --doc (with change: 69 + 11 pass)","cargo test --offline --test $DEMONAME (with change: fails)","git stash; cargo test --offline --test $DEMONAME (passes)"],
+ "what_i_ran":["cargo test --offline --lib; cargo test --offline --doc (with change: 69 + 11 pass)","cargo test --offline --test $DEMONAME (with change: fails)","git apply -R patch.diff; cargo test --offline --test $DEMONAME (passes)"],
  "needs_to_manifest":"see NOTES.md","detected_by":[]}, open("/verif/seeded/$ID/meta.json","w"), indent=1)
 PY
   echo CONFIRMED
